@@ -114,6 +114,27 @@ def explicit_lookups(ctx, c, r, where, problems, n_present=3, n_absent=2):
                 if got:
                     problems.append("%s: get_record(full URI %r) returned %d records of <%s>" % (where, u + uri, len(got), got[0].identifier.uri))
                 break
+    # identifiers that live in the enclosing document or in sibling bundles but not in this container: a container answers for
+    # its own records only
+    doc = getattr(c, "_document", None)
+    if doc is not None:
+        foreign = []
+        for other in [doc] + [b for b in doc.bundles if b is not c]:
+            for rec in other.get_records():
+                if rec.identifier is not None and rec.identifier.uri not in by:
+                    foreign.append(rec.identifier)
+        r.shuffle(foreign)
+        for ident in foreign[:2]:
+            for name, x in (("foreign_qn", ident), ("foreign_uri", ident.uri)):
+                ctx.count("lookup.%s.absent" % name)
+                try:
+                    got = c.get_record(x)
+                except Exception as e:
+                    problems.append("%s: get_record(%s %r) raised %s" % (where, name, str(x), type(e).__name__))
+                    continue
+                if got:
+                    problems.append("%s: get_record(%s %r) on bundle <%s> returned %d record(s) that are not in the bundle (scan of get_records() has none for <%s>)"
+                                    % (where, name, str(x), getattr(c.identifier, "uri", None), len(got), ident.uri))
     for uri, want in targets:
         spellings = []
         if want:
